@@ -31,6 +31,7 @@ type c07Case struct {
 	Shape  string `json:"shape,omitempty"` // Target "scale": input family (c07Shapes) ...
 	N      int    `json:"n,omitempty"`     // ... and its smallest size parameter (0 = the shape's default)
 	Deliv  int    `json:"deliv,omitempty"` // scan: how the reader hands the bytes over (deliveryNames)
+	Then   string `json:"then,omitempty"`  // scan: "fasta" = the input is also scanned with a complete FASTA record behind it
 }
 
 var (
@@ -321,6 +322,22 @@ func c07Check(c c07Case) *Violation {
 				if n != f.declared || n != f.residues {
 					return viol("inconsistent-accepted", "%s: record %d accepted with %d residues although LOCUS declares %d and the ORIGIN block holds %d", what, i, n, f.declared, f.residues)
 				}
+			}
+		}
+		// a record of the other format behind the input: what was an error stays an error (a record that is cut short is
+		// not dropped in silence because something readable follows it)
+		if c.Then == "fasta" && s.err != nil {
+			var s2 scanned
+			in2 := append(append([]byte{}, in...), []byte(">a complete record behind the cut\nACGTACGTAC\n")...)
+			pi, hung := withWatchdog(len(in2), func() { s2 = scanAll(in2, c.Deliv) })
+			if hung {
+				return viol("hang", "%s followed by a FASTA record: did not finish within the ceiling", what)
+			}
+			if pi != nil {
+				return panicViolation(what+" followed by a FASTA record", pi)
+			}
+			if s2.err == nil {
+				return viol("truncation-silent", "%s: alone the input is rejected (%v); with a complete FASTA record behind it the scanner returns %d record(s) and no error", what, s.err, len(s2.recs))
 			}
 		}
 		// truncation: records are a prefix of the full parse; a cut inside a record is an error, not silence
@@ -795,6 +812,27 @@ func TestC07(t *testing.T) {
 		}
 	}
 	ed.done(false)
+	// every truncation of the GenBank corpus files once more with a complete FASTA record behind the cut
+	ef := enumPart(t, c07Prop, st, "truncate-then-fasta")
+	for _, name := range c07CorpusGB {
+		size := len(corpusFile(name))
+		if strings.HasPrefix(name, "2x:") {
+			continue
+		}
+		step := 1
+		if !thorough() && size > 7000 {
+			step = 3
+		}
+		for k := 0; k <= size; k += step {
+			if !ef.try(c07Case{Target: "scan", Corpus: name, Trunc: k, CRLF: !thorough() && k%5 == 0, How: "truncate", Then: "fasta"}) {
+				return
+			}
+			if thorough() && !ef.try(c07Case{Target: "scan", Corpus: name, Trunc: k, CRLF: true, How: "truncate", Then: "fasta"}) {
+				return
+			}
+		}
+	}
+	ef.done(thorough())
 	// size ladder: cost stays under the ceiling for valid and for garbage input up to 1 MiB
 	e2 := enumPart(t, c07Prop, st, "size-ladder")
 	base := corpusFile("NC_001422.gb")
